@@ -141,6 +141,16 @@ func (m *C04) classify(w *world.World, where string, kind string, signer string,
 			ok = kind == "complete"
 		case fromMod == "market" && toMod == "order":
 			ok = kind == "terminate" || kind == "complete"
+		case fromMod == "market" && toMod == "node":
+			// storage income of the claiming provider applied to its own recorded collateral debt
+			if kind == "claim" {
+				dpre, dpost := pre.Debts[signer], sdk.ZeroInt()
+				if dpre.IsNil() {
+					dpre = sdk.ZeroInt()
+				}
+				ok = dpre.GTE(t.Amount)
+				_ = dpost
+			}
 		case fromMod == "order" && toMod == "did":
 			ok = kind == "terminate" || kind == "complete"
 		case fromMod == "order" && toMod == "":
